@@ -27,7 +27,7 @@ import polars as pl
 
 import rtflite as rtf
 
-DTYPES = {"str": pl.Utf8, "int": pl.Int64, "float": pl.Float64, "bool": pl.Boolean, "cat": pl.Categorical}
+DTYPES = {"str": pl.Utf8, "int": pl.Int64, "float": pl.Float64, "bool": pl.Boolean, "cat": pl.Categorical, "null": pl.Null}
 
 
 def dec(v):
